@@ -88,6 +88,10 @@ func funcRound(v []data.Value) data.Value {
 	if len(v) == 2 {
 		digitsAfterPt = int(v[1].(data.Int))
 	}
+	if isInt(v[0]) && digitsAfterPt == 0 {
+		// an integer is its own rounding (and is not exact as a float above 2^53)
+		return v[0]
+	}
 	var result = round(toFloat(v[0]), digitsAfterPt)
 	if digitsAfterPt <= 0 {
 		return data.Int(result)
